@@ -122,6 +122,9 @@ def main():
                      ["exact-rational kernels", "single-epoch calls (max_iter = 1), as the property states"])
     # compound estimators: the invariant on implementation snapshots (no model yet for these)
     zf, zn = zoo.book_oracle_all(C.make_rng(seed, "C05-zoo"), 250 if tier == "quick" else 2500)
+    # re-fitting a model that already holds several categories (own PRNG stream)
+    rf, rn = zoo.book_oracle_all(C.make_rng(seed, "C05-refit"), 150 if tier == "quick" else 1500, gen=zoo.gen_refit_history)
+    zf, zn = zf + rf, zn + rn
     import flow
     for f in zf:
         kf = C.match_known("C05", f["signature"])
